@@ -17,7 +17,7 @@ func init() {
 		ID:    "C09",
 		Title: "Frames the decoder must reject are rejected",
 		Level: "exploration",
-		Rule: "mutation of every frame of the valid corpus V (specification encoder; thorough adds frames with 127/128/16383/16384-byte strings) driven by the encoder's field map: " +
+		Rule: "mutation of every frame of the valid corpus V (specification encoder; plus CONNECT frames with other protocol names/versions, which parse but are not v5.0; thorough adds frames with 127/128/255/256/16383/16384-byte strings) driven by the encoder's field map: " +
 			"(a) every cut position strictly inside a two/four-byte integer, a string or binary (prefix or body), a multi-byte variable byte integer, or a property (between identifier and value), with the remaining length rewritten to the shortened size (PUBLISH payload exempt); " +
 			"(b) every variable-byte-integer position (remaining length, property length, subscription identifier) replaced by each 5-byte continuation {80,ff}^4 x {00,01,7f}, enclosing lengths adjusted; (c) every boolean property occurrence x every value 2..255; (d) every property position, will properties included, x all 229 identifiers MQTT v5.0 does not define. " +
 			"Every mutant is first confirmed to be rejected by the strict specification decoder (otherwise it is skipped and counted); ReadPacket must then return (nil, error) without panicking or exceeding the step budget. distinct_nontrivial = distinct mutants by content hash.",
@@ -69,6 +69,28 @@ var undefinedIDs = func() []byte {
 
 func c09Corpus(x *core.Ctx) []VFrame {
 	v := append([]VFrame{}, validCorpus()...)
+	// frames that parse but are not valid v5.0 (other protocol name or
+	// version, as sent by older clients): a frame that ends inside a field
+	// must be rejected whatever the version byte says
+	for _, name := range []string{"MQTT", "MQIsdp", "X"} {
+		for _, ver := range []byte{3, 4, 0, 255} {
+			for _, rich := range []bool{false, true} {
+				p := minimalPacket(1)
+				if rich {
+					p = richPacket(1, true)
+				}
+				p.ProtoName, p.ProtoVer = []byte(name), ver
+				b, fields, err := spec.Encode(p, spec.Form{})
+				if err != nil {
+					continue
+				}
+				if _, _, n, derr := spec.Decode(b, false); derr != nil || n != len(b) {
+					continue
+				}
+				v = append(v, VFrame{B: b, Fields: fields, P: p, Name: fmt.Sprintf("CONNECT.%s.v%d.rich=%v", name, ver, rich)})
+			}
+		}
+	}
 	if !x.Thorough() {
 		return v
 	}
